@@ -228,7 +228,7 @@ pub fn raster_case(data: &[u8]) -> c13::Case {
         _ => c13::Fit::Height(side * (1 + c.below(5) as u32)),
     };
     let fit_order = c.u8() % 4;
-    c13::Case { build, cfg, fit, fit_order }
+    c13::Case { build, cfg, fit, fit_order, pre_fits: Vec::new() }
 }
 
 pub fn frame_case(data: &[u8]) -> c18::Case {
